@@ -36,6 +36,7 @@ func (o *C12) Check(x *h.Exec, ev *h.Event) {
 			if o.objectItems(x, pi, f, c) {
 				return
 			}
+			exp := hoverDescriptions(p, f)
 			for _, off := range x.Offsets(f, c, 1) {
 				q := h.Query{Kind: "hover", Path: pi, File: f.Name, Off: off, Order: orderFor(c, uint64(off)+3)}
 				r := x.Run(q)
@@ -64,6 +65,13 @@ func (o *C12) Check(x *h.Exec, ev *h.Event) {
 					case "attr":
 						if n.Name.Contains(off) {
 							x.Cov.Probe("hover_on_attr_name")
+							if e := exp[n.ID]; e != nil {
+								x.Cov.Probe("hover_description_checked")
+								if d := wrongDocs(hd.Content.Value, e.allowed, e.want); d != "" {
+									x.Report("description", "hover", "attribute", fmt.Sprintf("hover on attribute name %q at byte %d: %s; content %q", n.Item.Attr.Name, off, d, short(hd.Content.Value, 160)), &q)
+									return
+								}
+							}
 							if !strings.Contains(hd.Content.Value, n.Item.Attr.Name) {
 								x.Report("attr-name-missing", "hover", "", fmt.Sprintf("hover on attribute name %q at byte %d does not name it: %q", n.Item.Attr.Name, off, short(hd.Content.Value, 120)), &q)
 								return
@@ -76,6 +84,13 @@ func (o *C12) Check(x *h.Exec, ev *h.Event) {
 					case "block":
 						if n.Name.Contains(off) {
 							x.Cov.Probe("hover_on_block_type")
+							if e := exp[n.ID]; e != nil {
+								x.Cov.Probe("hover_description_checked")
+								if d := wrongDocs(hd.Content.Value, e.allowed, e.want); d != "" {
+									x.Report("description", "hover", "block", fmt.Sprintf("hover on block type %q at byte %d: %s; content %q", n.Item.Block.Type, off, d, short(hd.Content.Value, 160)), &q)
+									return
+								}
+							}
 							if !strings.Contains(hd.Content.Value, n.Item.Block.Type) {
 								x.Report("block-type-missing", "hover", "", fmt.Sprintf("hover on block type %q does not name it: %q", n.Item.Block.Type, short(hd.Content.Value, 120)), &q)
 								return
@@ -88,6 +103,13 @@ func (o *C12) Check(x *h.Exec, ev *h.Event) {
 						for li, ls := range n.Labels {
 							if ls.Contains(off) && li < len(n.Item.Block.Labels) {
 								x.Cov.Probe("hover_on_label")
+								if e := exp[n.ID]; e != nil && li < len(e.labels) {
+									x.Cov.Probe("hover_description_checked")
+									if d := wrongDocs(hd.Content.Value, e.labels[li], ""); d != "" {
+										x.Report("description", "hover", "label", fmt.Sprintf("hover on label %d of block %q at byte %d: %s; content %q", li, n.Item.Block.Type, off, d, short(hd.Content.Value, 160)), &q)
+										return
+									}
+								}
 								if !strings.Contains(hd.Content.Value, n.Item.Block.Labels[li]) {
 									x.Report("label-missing", "hover", "", fmt.Sprintf("hover on label %q does not name it: %q", n.Item.Block.Labels[li], short(hd.Content.Value, 120)), &q)
 									return
